@@ -40,6 +40,13 @@ class _IMTLGWeighting(_Weighting):
     def forward(self, matrix: Tensor) -> Tensor:
         d = torch.linalg.norm(matrix, dim=1)
 
+        # The weights are invariant to the scale of the matrix. Normalizing it makes the threshold
+        # used below to detect a null sum independent of this scale.
+        d_max = d.max()
+        if d_max > 0.0:
+            matrix = matrix / d_max
+            d = d / d_max
+
         try:
             v = torch.linalg.pinv(matrix @ matrix.T) @ d
         except RuntimeError:  # This can happen when the matrix has extremely large values
